@@ -572,6 +572,14 @@ static int m_recv(const void *sk, void *buf, const size_t len, const time_t time
 	sim_apply_events(s, true);
 	int f = tfault_for_call(s, TC_RECV);
 
+	/* fault by stream position: the read that would deliver byte number intr_at_byte + 1 of this connection is
+	 * interrupted instead (reads before it are cut so that they end exactly there) */
+	if (f == F_NONE && s->cfg.intr_at_byte > 0 && !s->intr_fired && s->opens == s->cfg.intr_conn && s->connected &&
+	    (long)s->delivered_total == s->cfg.intr_at_byte) {
+		s->intr_fired = true;
+		f = F_INTR;
+		CNT("sim/tfault/interrupt_at_stream_position");
+	}
 	if (!s->connected) {
 		CNT("sim/recv_on_closed_connection");
 		rv = TR_ERROR;
@@ -603,6 +611,9 @@ static int m_recv(const void *sk, void *buf, const size_t len, const time_t time
 		if (s->in_pos < s->in_len) {
 			size_t n = chunk(s, s->cfg.chunk_rx, len, s->in_len - s->in_pos);
 
+			if (s->cfg.intr_at_byte > 0 && !s->intr_fired && s->opens == s->cfg.intr_conn &&
+			    (long)s->delivered_total < s->cfg.intr_at_byte && (long)(s->delivered_total + n) > s->cfg.intr_at_byte)
+				n = (size_t)(s->cfg.intr_at_byte - (long)s->delivered_total);
 			memcpy(buf, s->in + s->in_pos, n);
 			if (s->dlog_len + n > s->dlog_cap) {
 				s->dlog_cap = (s->dlog_len + n) * 2 + 4096;
